@@ -209,6 +209,68 @@ def run_spec(ctx, rep, spec, cases, model, limit=None):
                     rep.agree()
 
 
+def run_history(ctx, rep, spec, fsel, level, history, path=None, truth=None, pck=None):
+    """several reads through ONE selector / stream object (the interface is an object that is reused):
+    every read of the sequence must be refused or exact, whatever was read before"""
+    from amr_kitchen import PlotfileCooker
+    if path is None:
+        path = ctx.newdir("c01h_")
+        truth = plotgen.materialize(spec, path)
+        with quiet():
+            pck = PlotfileCooker(path)
+    names = dedup_names(spec["fields"])
+    nf = len(spec["fields"])
+    lim = len(spec["levels"]) - 1
+    case = {"spec": spec, "fsel": fsel, "level": level, "history": history}
+    rep.case({"s": spec, "f": fsel, "l": level, "h": history}, nontrivial=True)
+    rep.count("history:" + fsel["t"])
+    try:
+        with quiet():
+            stream = pck[selectors.decode(fsel)][level]
+    except Exception:
+        return
+    for n, bsel in enumerate(history):
+        try:
+            with alarm(60), quiet():
+                r = stream[selectors.decode(bsel)]
+            real = ("ok", r) if r is not None else ("refused", "box", "None")
+        except CaseTimeout:
+            rep.fail("read did not return within 60 s", case); return
+        except Exception as e:
+            real = ("refused", "box", type(e).__name__)
+        exp = expected(truth, spec, names, fsel, level, bsel, lim)
+        bad = compare(real, exp)
+        if bad is None and real[0] == "refused" and exp[0] == "ok" and selectors.must_honour_field(fsel, nf, names):
+            bad = f"a valid box selection was refused ({real[2]})"
+        if bad is not None:
+            rep.fail(f"read #{n + 1} through a reused stream object: " + bad, case, obs={"step": n, "bsel": bsel})
+            return
+    rep.agree()
+
+
+def histories(ctx, rep, spec):
+    from amr_kitchen import PlotfileCooker
+    path = ctx.newdir("c01h_")
+    truth = plotgen.materialize(spec, path)
+    with quiet():
+        pck = PlotfileCooker(path)
+    nf = len(spec["fields"])
+    names = list(dedup_names(spec["fields"]))
+    fsels = [{"t": "int", "v": nf - 1}, {"t": "int", "v": -1}, {"t": "slice", "v": [1, None, None]},
+             {"t": "list", "v": [nf - 1]}, {"t": "ndarray", "v": [nf - 1]}, {"t": "names", "v": names[-1:]},
+             {"t": "slice", "v": [None, None, 2]}]
+    if nf >= 3:
+        fsels += [{"t": "list", "v": [1, nf - 1]}, {"t": "ndarray", "v": [1, 2]}, {"t": "names", "v": [names[1], names[-1]]},
+                  {"t": "list", "v": [2, 1]}]
+    for lv in range(len(spec["levels"])):
+        nb = len(spec["levels"][lv])
+        b = [ctx.rng.randrange(nb) for _ in range(3)]
+        hist = [{"t": "int", "v": b[0]}, {"t": "int", "v": b[1]}, {"t": "list", "v": [b[2], b[0]]}, {"t": "int", "v": b[0]},
+                {"t": "slice", "v": [None, None, None]}, {"t": "int", "v": -1}]
+        for fsel in fsels:
+            run_history(ctx, rep, spec, fsel, lv, hist, path, truth, pck)
+
+
 def specs_for(ctx, n):
     out = []
     for i in range(n):
@@ -230,6 +292,7 @@ def run(ctx, rep, model=True):
                 limit = len(spec["levels"]) - 2
                 cases = [c for c in cases if True]
             run_spec(ctx, rep, spec, cases, model, limit=limit)
+            histories(ctx, rep, spec)
             if len(rep.violations) >= 25:
                 break
     if not ctx.quick and not rep.violations:
@@ -242,5 +305,9 @@ def run(ctx, rep, model=True):
 
 def replay(ctx, rep, obj, model=True):
     c = obj["case"]
+    if "history" in c:
+        with pools.controlled():
+            run_history(ctx, rep, c["spec"], c["fsel"], c["level"], c["history"])
+        return
     with pools.controlled():
         run_spec(ctx, rep, c["spec"], [(c["fsel"], c["level"], c["bsel"])], model, limit=c.get("limit"))
